@@ -78,6 +78,61 @@ pub fn main(args: &[String]) {
                 }
             }
         }
+        "corpus" => {
+            // regression corpus: minimal reproducers of repaired defects (known_findings.json, status fixed)
+            let which: usize = args[1].parse().unwrap();
+            let leaf = |row: Line<GridPlacement>, col: Line<GridPlacement>| {
+                NodeSpec::leaf(Style { grid_row: row, grid_column: col, size: Size::from_lengths(10.0, 10.0), ..Default::default() })
+            };
+            let auto = GridPlacement::Auto;
+            let l = |i: i16| GridPlacement::from_line_index(i);
+            let grid = |children: Vec<NodeSpec>, cols: u16, rows: u16| NodeSpec {
+                style: Style {
+                    display: Display::Grid,
+                    grid_template_columns: (0..cols).map(|_| length(10.0)).collect(),
+                    grid_template_rows: (0..rows).map(|_| length(10.0)).collect(),
+                    ..Default::default()
+                },
+                ctx: None,
+                children,
+            };
+            let spec = match which {
+                // grid_row: auto / -3
+                0 => grid(vec![leaf(Line { start: auto, end: l(-3) }, Line { start: auto, end: auto })], 0, 0),
+                // auto / -1 column on an empty explicit grid
+                1 => grid(vec![leaf(Line { start: auto, end: auto }, Line { start: auto, end: l(-1) })], 0, 0),
+                // two children grid_row: -2 (last_of_type axis mix-up)
+                2 => grid(
+                    vec![
+                        leaf(Line { start: l(-2), end: auto }, Line { start: auto, end: auto }),
+                        leaf(Line { start: l(-2), end: auto }, Line { start: auto, end: auto }),
+                    ],
+                    0,
+                    0,
+                ),
+                // grid_column: 0 / span 3 on a 2x2 grid (span estimate ignored the line-0 -> auto conversion: hang)
+                3 => grid(vec![leaf(Line { start: auto, end: auto }, Line { start: l(0), end: GridPlacement::Span(3) })], 2, 2),
+                // repeat(2, 10px 20px) repeat(auto-fit, 30px) rows in a 100x100 grid: more tracks created than counted
+                4 => {
+                    let mut g = grid(vec![leaf(Line { start: auto, end: auto }, Line { start: auto, end: auto })], 0, 0);
+                    g.style.size = Size::from_lengths(100.0, 100.0);
+                    g.style.grid_template_rows = vec![
+                        TrackSizingFunction::Repeat(GridTrackRepetition::Count(2), vec![length(10.0), length(20.0)]),
+                        TrackSizingFunction::Repeat(GridTrackRepetition::AutoFit, vec![length(30.0)]),
+                    ];
+                    g
+                }
+                _ => std::process::exit(3),
+            };
+            let r = std::panic::catch_unwind(|| {
+                let mut t: TaffyTree<Ctx> = TaffyTree::new();
+                let mut ids = vec![];
+                let root = build(&mut t, &spec, &mut ids);
+                compute(&mut t, root, Size::MAX_CONTENT);
+                all_finite(&t, &ids)
+            });
+            println!("CORPUS {} {}", which, match r { Ok(true) => "OK", Ok(false) => "NONFINITE", Err(_) => "PANIC" });
+        }
         "one" => {
             let seed: u64 = args[1].parse().unwrap();
             let idx: u64 = args[2].parse().unwrap();
